@@ -34,7 +34,7 @@ FCFG = [('Z2', True), ('U1', True), ('U1xU1', True), ('U1xU1', (True, False)), (
 
 def cases(tier, seed):
     out = []
-    reps = 3 if tier == 'quick' else 10
+    reps = 3 if tier == 'quick' else 150
     for rep in range(reps):
         for i, row in enumerate(cat.covering({'cfg': list(range(len(FCFG))), 'form': ['pair', 'groups', 'two-pairs', 'charge', 'charge-multi'], 'lazy': ['plain', 'lazy'],
                                               'dtype': ['real', 'complex'], 'fuse': ['none', 'meta', 'hard']}, seed=seed * 7 + rep, strength=2)):
